@@ -1,13 +1,17 @@
 import fractions
+import logging
 from typing import Optional, cast
 
 from av import AudioCodecContext, AudioFrame, AudioResampler, CodecContext
+from av.error import FFmpegError
 from av.frame import Frame
 from av.packet import Packet
 
 from ..jitterbuffer import JitterFrame
 from ..mediastreams import convert_timebase
 from .base import Decoder, Encoder
+
+logger = logging.getLogger(__name__)
 
 SAMPLE_RATE = 16000
 SAMPLE_WIDTH = 2
@@ -27,10 +31,14 @@ class G722Decoder(Decoder):
         self.codec.sample_rate = SAMPLE_RATE
 
     def decode(self, encoded_frame: JitterFrame) -> list[Frame]:
-        packet = Packet(encoded_frame.data)
-        packet.pts = encoded_frame.timestamp * 2
-        packet.time_base = TIME_BASE
-        return cast(list[Frame], self.codec.decode(packet))
+        try:
+            packet = Packet(encoded_frame.data)
+            packet.pts = encoded_frame.timestamp * 2
+            packet.time_base = TIME_BASE
+            return cast(list[Frame], self.codec.decode(packet))
+        except FFmpegError as e:
+            logger.warning("G722Decoder() failed to decode, skipping package: " + str(e))
+            return []
 
 
 class G722Encoder(Encoder):
